@@ -465,6 +465,33 @@ func (vc *VC) hget(h *Heap, comp string) string {
 	if comp == compAlloc {
 		vc.decl("allocpos:"+n, "(assert (< 0 "+n+"))")
 	}
+	if strings.HasPrefix(comp, "G$") && comp != compAlloc {
+		// ghost maps keyed by references: objects that do not exist in this
+		// epoch's heap have the zero value (same convention as at function
+		// entry; needed after whole-heap havocs, which start a new epoch)
+		if g, ok := vc.w.ghosts[strings.TrimPrefix(comp, "G$")]; ok {
+			gt := strings.ReplaceAll(g.Type, " ", "")
+			isLock := strings.HasPrefix(gt, "map[lock]")
+			if strings.HasPrefix(gt, "map[ref]") || isLock {
+				es := ghostSort(gt[strings.Index(gt, "]")+1:])
+				zero := ""
+				if es == sortBool {
+					zero = "false"
+				} else if es == sortInt {
+					zero = "0"
+				}
+				if zero != "" {
+					vc.compDecl(compAlloc, sortInt)
+					a := vc.hget(&Heap{m: map[string]string{}, epoch: h.epoch}, compAlloc)
+					idx := "i"
+					if isLock {
+						idx = fmt.Sprintf("(div i %d)", lockStride)
+					}
+					vc.decl("ghostzero:"+n, fmt.Sprintf("(assert (forall ((i Int)) (! (=> (>= %s %s) (= (select %s i) %s)) :pattern ((select %s i)))))", idx, a, n, zero, n))
+				}
+			}
+		}
+	}
 	return n
 }
 
